@@ -180,7 +180,7 @@ PROPS = {
     },
     "C05": {
         "module": "StrettoModel.Props.C05",
-        "oracles": [{"name": "live-sweep", "run": live_oracle("C05", ["async_sweep_race", "async_sweep_under_traffic"])}, {"name": "flavour-differential", "run": flavour_oracle_for("C05")}],
+        "oracles": [{"name": "live-sweep", "run": live_oracle("C05", ["async_sweep_race", "async_sweep_under_traffic", "cleanup_interval_honoured", "tiny_cleanup_interval"])}, {"name": "flavour-differential", "run": flavour_oracle_for("C05")}],
             "jobs": [acache_job(r"\.(store|expiry|policy|callbacks|len)$", extra=["--w-ttl", "60"]), cache_job(r"\.(store|expiry|policy|callbacks|len)$", extra=["--w-ttl", "80"])],
         "branches": ["tick.reclaimed", "tick.recheck_skipped", "tick.idle", "insert.ttl", "insert.update", "remove.resident"],
         "assumptions": CACHE_ASSUME + ["the tick period (crossbeam tick / async-io Timer) is environment: ticks are placed by the schedule, with a virtual nanosecond clock",
@@ -214,8 +214,12 @@ PROPS = {
     "C10": {"module": "StrettoModel.Props.C10", "jobs": [acache_job(r"\.(buffer|ret|wait|clear|close|closed)$"), cache_job(r"\.(buffer|ret|wait|clear|close|closed)$", extra=["--w-wait", "10", "--w-close", "3", "--w-clear", "5"])],
             "oracles": [{"name": "flavour-differential", "run": flavour_oracle_for("C10")}, {"name": "live-barrier", "run": live_oracle("C10", ["barrier", "protocol_storm", "async_barrier", "async_protocol_storm", "remove_full", "async_remove_full"])}], "assumptions": CACHE_ASSUME},
     "C15": {"module": "StrettoModel.Props.C15", "oracles": [{"name": "live-ring", "run": live_oracle("C15", ["async_ring_accounting"])}, {"name": "flavour-differential", "run": flavour_oracle_for("C15")}],
-            "jobs": [acache_job(r"\.(ring|metrics|ret|batch)$"), cache_job(r"\.(ring|metrics|ret|batch)$")],
-            "branches": ["ring.flush.kept", "ring.flush.dropped_or_closed", "w.items", "get.hit", "get.miss", "getmut.hit"],
+            "jobs": [acache_job(r"\.(ring|metrics|ret|batch)$"), cache_job(r"\.(ring|metrics|ret|batch)$"),
+                     {"name": "tinylfu", "driver": "tiny", "fields": r"^tiny\.",
+                      "gen": lambda tier, seed: ["sketch", "--seed", str(seed), "--ops", "300" if tier == "quick" else "2000",
+                                                 "--lives", "40" if tier == "quick" else "140"],
+                      "seeds": {"quick": 1, "thorough": 12}}],
+            "branches": ["ring.flush.kept", "ring.flush.dropped_or_closed", "w.items", "get.hit", "get.miss", "getmut.hit", "tiny.est.seen"],
             "assumptions": CACHE_ASSUME + ["what the policy worker does with a kept batch is TinyLFU.increments, the subject of C13; the stepped harness parks the worker so the bounded queue does fill up"]},
     "C19": {"module": "StrettoModel.Props.C19", "jobs": [acache_job(r".*"), cache_job(r".*", quick_lives=8)],
             "oracles": [{"name": "flavour-differential", "run": flavour_oracle},
@@ -241,7 +245,7 @@ PROPS = {
             "jobs": [acache_job(r".*"), cache_job(r".*", name="config-sweep", extra=["--sweep", "1"], quick_ops=60, quick_lives=70, thorough_ops=150, thorough_lives=140, seeds={"quick": 1, "thorough": 8}),
                      cache_job(r".*", quick_lives=10)],
             "branches": ["finalize.ok", "finalize.InvalidNumCounters", "finalize.InvalidMaxCost", "finalize.InvalidBufferSize", "padd.evicting", "tick.reclaimed", "ring.flush.kept"],
-            "oracles": [{"name": "live-completion", "run": live_oracle("C20", ["ttl_mix", "protocol_storm"])}], "assumptions": CACHE_ASSUME},
+            "oracles": [{"name": "live-completion", "run": live_oracle("C20", ["ttl_mix", "protocol_storm", "tiny_cleanup_interval"])}], "assumptions": CACHE_ASSUME},
     "C09": {
         "module": "StrettoModel.Props.C09",
         "oracles": [{"name": "flavour-differential", "run": flavour_oracle_for("C09")}],
@@ -251,7 +255,7 @@ PROPS = {
     },
     "C11": {
         "module": "StrettoModel.Props.C11",
-        "oracles": [{"name": "live-clear-burst", "run": live_oracle("C11", ["clear_burst", "async_clear_burst"])}, {"name": "flavour-differential", "run": flavour_oracle_for("C11")}],
+        "oracles": [{"name": "live-clear-burst", "run": live_oracle("C11", ["clear_burst", "async_clear_burst", "clear_held_ref"])}, {"name": "flavour-differential", "run": flavour_oracle_for("C11")}],
             "jobs": [acache_job(r"\.(store|expiry|policy|buffer|metrics|ret|callbacks|len|clear)$"), cache_job(r"\.(store|expiry|policy|buffer|metrics|ret|callbacks|len|clear)$", extra=["--w-clear", "8", "--w-ttl", "40"])],
         "branches": ["clear.blocked.buf0", "clear.blocked.buf1", "clear.blocked.buf2", "p.clear.buf0", "p.clear.buf1", "p.clear.buf2", "ret.clear"],
         "assumptions": CACHE_ASSUME,
